@@ -78,4 +78,52 @@ theorem txnFixed_single_commit (closure undo : List Ev) (closureOk : Bool) (s : 
         (run closure s.begin).final).final.commitOutermost (s.depth + 1)).data = _
     rw [hd, commitOutermost_flush _ hd2]
 
+/-- Every piece of code built from brackets is well nested (what `WF` asks for). -/
+theorem wellNested_br (body : List Ev) (h : wellNested 1 body = true) (hn : netDepth 1 body = 1) :
+    wellNested 0 (br body) = true := by
+  show wellNested 1 (body ++ [Ev.commit]) = true
+  apply wellNested_append
+  · exact h
+  · rw [hn]; rfl
+
+
+theorem histFinal_clean (steps : List TxnStep) :
+    ∀ (s : St), Clean s → (∀ t ∈ steps, t.WF) → Clean (histFinal steps s) := by
+  induction steps with
+  | nil => intro s hs _; exact hs
+  | cons t ts ih =>
+    intro s hs hwf
+    have ht : t.WF := hwf t (by simp)
+    exact ih _ (txnFixed_single_commit t.closure t.undo t.closureOk s hs ht.1 ht.2).2.1
+      (fun t' ht' => hwf t' (by simp [ht']))
+
+
+theorem run_noWrite_data (es : List Ev) :
+    ∀ s, noWriteBeforeFail es = true → (run es s).final.data = s.data := by
+  induction es with
+  | nil => intro s _; rfl
+  | cons e es ih =>
+    intro s h
+    cases e with
+    | fail => rfl
+    | write k v => simp [noWriteBeforeFail] at h
+    | begin =>
+      have := ih s.begin (by simpa [noWriteBeforeFail] using h)
+      have hb : s.begin.data = s.data := rfl
+      rw [hb] at this
+      simpa [run, step] using this
+    | nop =>
+      have := ih s (by simpa [noWriteBeforeFail] using h)
+      simpa [run, step] using this
+    | commit =>
+      have h1 := ih s.commit (by simpa [noWriteBeforeFail] using h)
+      have h2 : s.commit.data = s.data := by
+        unfold St.commit St.flush
+        by_cases a : s.depth = 0
+        · simp [a]
+        · by_cases b : s.depth - 1 = 0 <;> simp [a, b]
+      simp only [run, step]
+      rw [h1, h2]
+
+
 end AgdbCrash
